@@ -264,12 +264,16 @@ func (s *attSubmitter) SubmitAttestations(ctx context.Context, atts []*phase0.At
 // newAttester builds the real attester over the environment; strategy is nil (scripted data provider) or a
 // real attestation data strategy that itself sits on scripted beacon nodes.
 func newAttester(e *attEnv, strategy eth2client.AttestationDataProvider) *standardattester.Service {
+	return newAttesterWithSpec(e, strategy, attSlotDur, attSPE)
+}
+
+func newAttesterWithSpec(e *attEnv, strategy eth2client.AttestationDataProvider, slotDur time.Duration, spe uint64) *standardattester.Service {
 	svc, err := standardattester.New(context.Background(),
 		standardattester.WithLogLevel(zerolog.Disabled),
 		standardattester.WithMonitor(&nullmetrics.Service{}),
 		standardattester.WithProcessConcurrency(2),
 		standardattester.WithChainTime(e.ct),
-		standardattester.WithSpecProvider(&specProvider{m: baseSpec(attSlotDur, attSPE)}),
+		standardattester.WithSpecProvider(&specProvider{m: baseSpec(slotDur, spe)}),
 		standardattester.WithAttestationDataProvider(&attSeamProvider{e: e, next: strategy}),
 		standardattester.WithAttestationsSubmitter(&attSubmitter{e}),
 		standardattester.WithValidatingAccountsProvider(&attAccounts{e}),
